@@ -187,6 +187,33 @@ class Renderer3(F.Renderer):
             if rng.random() < 0.4:
                 self.alt.append(("alt%d" % i, u))
         self.alt.append(("nowhere", "urn:fam:nowhere"))
+        self.rng = rng
+        self.occ = {}
+        self.rotate = rng.randrange(3)
+
+    def elem(self, e, declaring_ns, indent):
+        # occurrence bounds in every lexical variety (SchemaObject.optional / multi_occurrence)
+        occ = self.occ.get(id(e))
+        if occ is None:
+            r = self.rng
+            occ = ""
+            if e.opt:
+                occ += ' minOccurs="0"'
+            elif r.random() < 0.15:
+                occ += ' minOccurs="1"'
+            if e.multi:
+                occ += ' maxOccurs="%s"' % r.choice(["unbounded", "unbounded", "2", "7", "10"])
+            elif r.random() < 0.15:
+                occ += ' maxOccurs="1"'
+            self.occ[id(e)] = occ
+        a = ' name="%s" type="%s"%s' % (e.name, self.tref(e.tref), occ)
+        if e.nillable:
+            a += ' nillable="true"'
+        if e.default is not None:
+            a += ' default="%s"' % e.default
+        if e.qualified != self.S.namespaces[declaring_ns][1]:
+            a += ' form="%s"' % ("qualified" if e.qualified else "unqualified")
+        return "%s<xsd:element%s/>" % (indent, a)
 
     def nsdecls(self):
         return F.Renderer.nsdecls(self) + " " + " ".join('xmlns:%s="%s"' % pu for pu in self.alt)
@@ -212,7 +239,16 @@ class Renderer3(F.Renderer):
 
 def render(S, R):
     ops = [F.Op("op%d" % k, "wrapped", in_type=(t.ns, t.name)) for k, t in enumerate(S.types)]
-    return F.render_ops(S, ops, R)
+    text = F.render_ops(S, ops, R).decode("utf-8")
+    # the schema blocks in a rotated order: the first block (whose namespace the merged
+    # suds schema reports as its own) need not be the WSDL's target namespace
+    head, rest = text.split("  <wsdl:types>\n", 1)
+    body, tail = rest.split("\n  </wsdl:types>", 1)
+    blocks = body.split("\n    <xsd:schema ")
+    blocks = [blocks[0]] + ["    <xsd:schema " + b for b in blocks[1:]]
+    k = R.rotate % len(blocks)
+    blocks = blocks[k:] + blocks[:k]
+    return (head + "  <wsdl:types>\n" + "\n".join(blocks) + "\n  </wsdl:types>" + tail).encode("utf-8")
 
 
 # ---------------------------------------------------------------------------
